@@ -250,7 +250,7 @@ def build_harness(timeout=1500):
                 src = os.path.join(HARNESS_DIR, "Cargo.lock.seed")
             shutil.copy(src, lock)
         r = sh(["timeout", str(timeout), "cargo", "build", "--offline"], cwd=HARNESS_DIR,
-               env={"RUSTFLAGS": "--cfg " + GUARD}, timeout=timeout + 30)
+               env={"RUSTFLAGS": "--cfg " + GUARD, "CARGO_TARGET_DIR": os.path.join(CACHE, "target")}, timeout=timeout + 30)
     return r.returncode == 0, r.stdout + r.stderr
 
 
